@@ -732,6 +732,11 @@ def fancy_store(eng, st, base, idxs, value, node):
     # (2) cells not hit are unchanged
     anyhit = z3.Exists([q2], z3.And(0 <= q2, q2 < n, hit(q2, cell)))
     st.assume(z3.ForAll(cells, z3.Implies(z3.Not(anyhit), selN() == selO())))
+    # the same frame fact with an explicit witness function (better trigger: new[cell])
+    w = z3.Function(fresh_name('scatter_w'), *([I] * nd + [I]))
+    wc = w(*cells)
+    hitw = z3.And(0 <= wc, wc < n, *[norm(z3.Select(a_, wc), s_) == c_ for a_, s_, c_ in zip(arrs, sh, cells)])
+    st.assume(z3.ForAll(cells, z3.Or(hitw, selN() == selO()), patterns=[selN()]))
     st.heap.wr(key, base.t, new)
 
 
@@ -771,7 +776,7 @@ def list_comp(eng, st, node):
     sub = st.copy()
     sub.assume(z3.And(q >= 0, q < n))
     alloc0 = sub.heap.alloc
-    heap_keys0 = dict(sub.heap.m)
+    heap_keys0 = {k: (v[0], len(v[1])) for k, v in sub.heap.m.items()}
     stmts.assign_to(eng, sub, gen.target, d.bind(d.start + q, sub), node)
     saved_pc = len(sub.pc)
     ev = eng.ev(node.elt, sub)
@@ -782,7 +787,7 @@ def list_comp(eng, st, node):
     if z3.simplify(sub.heap.alloc - alloc0).as_long() != 0 if z3.is_int_value(z3.simplify(sub.heap.alloc - alloc0)) else True:
         raise Unsupported("allocating comprehension element needs a comprehension contract (ghost 'comps')")
     for kx, vx in sub.heap.m.items():
-        if kx in heap_keys0 and not vx.eq(heap_keys0[kx]):
+        if kx in heap_keys0 and (not vx[0].eq(heap_keys0[kx][0]) or len(vx[1]) != heap_keys0[kx][1]):
             raise Unsupported("comprehension element writes the heap")
     # facts learned about the element at index q hold for every q in range
     facts = sub.pc[len(st.pc):]
